@@ -325,3 +325,219 @@ def check_c15(tier, t0):
 
 
 CHECKS = {"C14": check_c14, "C15": check_c15}
+
+
+# ---------------------------------------------------------------------------------------
+# C11 history independence
+# ---------------------------------------------------------------------------------------
+CX_TIMEOUT = "Timeout during evaluating constexpr"
+CX_SRC = (corpus.HEADER + "@constexpr\ndef kpack(xa, xb):\n    return xa * 256 + xb\n"
+          "while True:\n    d0.Setting = kpack(3, 4) + d1.Setting\n    yield_()\n")
+FN_SRC = (corpus.HEADER + "def fa(xa):\n    return xa + 1\ndef fb(xa):\n    d3.Setting = xa\n    return fa(xa * 2)\n"
+          "while True:\n    d1.Setting = fb(d0.Setting) + fb(2)\n    d2.Setting = LogicType.Temperature + Color.Red\n    yield_()\n")
+SESSION_POOL = {
+    "plain": {"text": corpus.HEADER + "d0.Setting = d1.Setting + 1\nd2.Mode = DisplayMode.Celsius\n", "dir": {}, "cx": False, "fmt": True},
+    "bighash": {"text": corpus.HEADER + 'd0.Setting = HASH("abc")\nd1.Setting = 123456\nd2.Setting = AdvancedFurnaces.Minimum.PrefabHash\n', "dir": {}, "cx": False, "fmt": True},
+    "prcompact": {"text": "# pytrapic: compact\n" + corpus.HEADER + 'd0.Setting = HASH("abc")\nd1.Setting = LogicType.Pressure\n', "dir": {"compact": True}, "cx": False, "fmt": True},
+    "prnoinline": {"text": "# pytrapic: no-inline-functions, remove-labels\n" + FN_SRC, "dir": {"inline_functions": False, "remove_labels": True}, "cx": False, "fmt": True},
+    "functions": {"text": FN_SRC, "dir": {}, "cx": False, "fmt": True},
+    "constexpr": {"text": CX_SRC, "dir": {}, "cx": True, "fmt": True},
+    "alias": {"text": corpus.HEADER + 'pa = SolarPanel(d1, alias=True)\npb = SolarPanel(d2, alias="PANEL")\npa.Horizontal = 2\npb.Horizontal = d0.Setting\n', "dir": {}, "cx": False, "fmt": True},
+    "prverbose": {"text": "# pytrapic: no-compact, inline-functions\n" + FN_SRC, "dir": {"compact": False, "inline_functions": True}, "cx": False, "fmt": True},
+}
+SESSION_OBJS = {"oa": {"compact": False, "inline_functions": False, "remove_labels": False},
+                "ob": {"compact": True, "inline_functions": True, "remove_labels": False}}
+SESSION_OPTS = ("compact", "inline_functions", "remove_labels")
+
+
+def _full_opts(o):
+    d = dict(cw.REF)
+    d.update(o)
+    return d
+
+
+def _session_worker(job):
+    """Replay histories in this (long-lived) process; observe the process-wide state around every call."""
+    import subprocess as sp
+
+    from stationeers_pytrapic import utils as U
+    from stationeers_pytrapic.compiler import CompileOptions, compile_code
+
+    pool, fresh = job["pool"], job["fresh"]
+    spawned = []
+    real_popen = sp.Popen
+
+    class Spy(real_popen):
+        def __init__(self, *a, **k):
+            spawned.append(1)
+            super().__init__(*a, **k)
+
+    out = []
+    sp.Popen = Spy
+    try:
+        for hist in job["histories"]:
+            objs = {i: CompileOptions(**_full_opts(v)) for i, v in SESSION_OBJS.items()}
+            trace = []
+            for k, st in enumerate(hist):
+                s, i = st["src"], st["obj"]
+                o = objs[i]
+                before = {n: bool(getattr(o, n)) for n in SESSION_OPTS}
+                before_all = dict(vars(o))
+                cx0 = [sid for sid, p in pool.items() if p["cx"] and any(p["marker"] in c for c in U._eval_constexpr_cache)]
+                mode0, hinit0 = U._output_mode.name, bool(U._all_hashes)
+                src_arg = {"": pool[s]["text"]} if k % 2 else pool[s]["text"]
+                src_copy = json.loads(json.dumps(src_arg))
+                del spawned[:]
+                try:
+                    res = compile_code(src_arg, o)
+                    raised = None
+                except BaseException as e:
+                    res, raised = None, repr(e)
+                after = {n: bool(getattr(o, n)) for n in SESSION_OPTS}
+                key = json.dumps([s] + [before[n] for n in SESSION_OPTS])
+                txt = json.dumps(res, sort_keys=True, default=repr)
+                if CX_TIMEOUT in txt or fresh.get(key) == "?timeout":
+                    break  # the helper process did not answer within the implementation's 1 s (machine load): the rest of this history is undecided
+                same = raised is None and txt == fresh.get(key)
+                trace.append({"src": s, "obj": i, "before": before, "after": after, "mode": U._output_mode.name, "hinit": bool(U._all_hashes),
+                              "cache": [sid for sid, p in pool.items() if p["cx"] and any(p["marker"] in c for c in U._eval_constexpr_cache)],
+                              "same": bool(same), "spawned": bool(spawned), "mode0": mode0, "hinit0": hinit0, "cache0": cx0,
+                              "other_fields_changed": dict(vars(o)) != dict(before_all, **{n: getattr(o, n) for n in SESSION_OPTS}),
+                              "source_mapping_changed": src_arg != src_copy, "raised": raised,
+                              "result": res if not same else None})
+            if trace:
+                out.append(trace)
+    finally:
+        sp.Popen = real_popen
+    return out
+
+
+def _fresh_result(job):
+    """(source, options) compiled by a brand-new interpreter."""
+    code = ("import json, sys\nsys.path.insert(0, %r)\nfrom stationeers_pytrapic.compiler import compile_code, CompileOptions\n"
+            "j = json.load(sys.stdin)\nprint(json.dumps(compile_code(j['src'], CompileOptions(**j['options'])), sort_keys=True, default=repr))\n"
+            % os.path.join(REPO, "src"))
+    env = dict(os.environ)
+    env.pop("PYTRAPIC_VERIF", None)
+    env.pop("PYTHONDONTWRITEBYTECODE", None)
+    for attempt in range(8):
+        p = subprocess.run([PY, "-c", code], input=json.dumps(job).encode(), stdout=subprocess.PIPE, stderr=subprocess.PIPE, env=env, timeout=300)
+        out = p.stdout.decode().strip().splitlines()
+        if p.returncode == 0 and out and CX_TIMEOUT not in out[-1]:
+            return out[-1]
+        time.sleep(0.5 * attempt)
+    # the code under test gives its helper process 1 s; on a loaded machine that is not enough: undecided, not a verdict
+    return "?timeout" if (out and CX_TIMEOUT in out[-1]) else "!fresh process failed: " + p.stderr.decode()[-300:]
+
+
+def check_c11(tier, t0):
+    import itertools
+    import multiprocessing as mp
+
+    d = workdir("C11")
+    rep = Reporter("C11")
+    maxlen = 3
+    srcids = sorted(SESSION_POOL)
+    if tier == "quick":
+        srcids = [s for s in srcids if s not in ("prverbose",)]
+    pool = {s: dict(SESSION_POOL[s], marker="kpack" if SESSION_POOL[s]["cx"] else "") for s in srcids}
+    pool_json = {"sources": {s: {"dir": pool[s]["dir"], "cx": pool[s]["cx"], "fmt": pool[s]["fmt"]} for s in srcids}, "objs": SESSION_OBJS}
+    with open(os.path.join(d, "pool.json"), "w") as f:
+        json.dump(pool_json, f)
+    consts = "CONSTANTS\n SrcIds = {%s}\n ObjIds = {%s}\n MaxLen = %d\n" % (", ".join('"%s"' % s for s in srcids), ", ".join('"%s"' % o for o in sorted(SESSION_OBJS)), maxlen)
+    # the specification as required: every property holds
+    with open(os.path.join(d, "Session.cfg"), "w") as f:
+        f.write("SPECIFICATION Spec\n" + consts + " MutatesCaller = FALSE\nINVARIANT ResultIsFunctionOfInput\nINVARIANT ModeFollowsCall\nINVARIANT Export\n"
+                "PROPERTY CallerObjectUntouched\nPROPERTY CacheOnlyGrows\nCHECK_DEADLOCK FALSE\n")
+    r = run_tlc(os.path.join(SPEC, "Session.tla"), os.path.join(d, "Session.cfg"), d, workers=8, timeout=1800)
+    if not r.ok:
+        raise MachineryError("Session.tla: " + r.out[-3000:])
+    # the pinned implementation's shape (scan writes into the caller's object): TLC must exhibit the counterexample
+    with open(os.path.join(d, "SessionImpl.cfg"), "w") as f:
+        f.write("SPECIFICATION Spec\n" + consts.replace("MaxLen = %d" % maxlen, "MaxLen = 2") + " MutatesCaller = TRUE\nPROPERTY CallerObjectUntouched\nCHECK_DEADLOCK FALSE\n")
+    ri = run_tlc(os.path.join(SPEC, "Session.tla"), os.path.join(d, "SessionImpl.cfg"), d, workers=2, timeout=600)
+    design_cex = "CallerObjectUntouched" in ri.out and not ri.ok
+    hists = {json.dumps(h): h for h in tlc_exports(r, "HIST")}
+    hists = [hists[k] for k in sorted(hists)]
+    rnd = random.Random(seed() + 11)
+    # all histories of length <= 2 are prefixes of the exported ones; take all of length 3 (quick: a seeded third) + long random ones
+    if tier == "quick" and len(hists) > 500:
+        rnd.shuffle(hists)
+        hists = hists[:500]
+    longs = [[{"src": rnd.choice(srcids), "obj": rnd.choice(sorted(SESSION_OBJS))} for _ in range(rnd.randrange(20, 60))] for _ in range(30 if tier == "thorough" else 8)]
+    # fresh-process results, one per (source, options as passed)
+    pairs = []
+    for s in srcids:
+        for bits in itertools.product([False, True], repeat=3):
+            pairs.append((s, dict(zip(SESSION_OPTS, bits))))
+    with ThreadPoolExecutor(12) as ex:
+        fr = list(ex.map(_fresh_result, [{"src": pool[s]["text"], "options": _full_opts(o)} for s, o in pairs]))
+    fresh = {json.dumps([s] + [o[n] for n in SESSION_OPTS]): v for (s, o), v in zip(pairs, fr)}
+    bad_fresh = [k for k, v in fresh.items() if v.startswith("!")]
+    if bad_fresh:
+        raise MachineryError("fresh-process compilation failed for %s: %s" % (bad_fresh[0], fresh[bad_fresh[0]]))
+    # replay in long-lived processes (each worker serves its histories back to back: one long history per process)
+    nw = 12
+    allh = hists + longs
+    chunks = [allh[k::nw] for k in range(nw)]
+    ctx = mp.get_context("fork")
+    with ctx.Pool(nw, initializer=cw._init) as p:
+        results = p.map(_session_worker, [{"pool": pool, "fresh": fresh, "histories": c} for c in chunks])
+    traces = []
+    for c, res in zip(chunks, results):
+        traces += res
+    undecided = sum(len(h) for h in allh) - sum(len(t) for t in traces)
+    # harness-level observations that the model does not carry
+    for tr in traces:
+        for k, e in enumerate(tr):
+            if e["raised"]:
+                rep.violation(["raised"], "RAISED", {"property": "C11", "step": k + 1, "trace": tr[: k + 1]}, "compile_code raised %s" % e["raised"])
+            if e["source_mapping_changed"]:
+                rep.violation(["srcmap"], "SOURCE_MAPPING_MODIFIED", {"property": "C11", "step": k + 1, "trace": tr[: k + 1]}, "the source mapping passed in was modified")
+            if e["other_fields_changed"]:
+                rep.violation(["opts"], "CALLER_OPTIONS_MODIFIED", {"property": "C11", "step": k + 1, "trace": tr[: k + 1]}, "an option field outside the modelled ones was modified")
+    slim = [[{k: v for k, v in e.items() if k in ("src", "obj", "before", "after", "mode", "hinit", "cache", "same", "spawned", "mode0", "hinit0", "cache0")} for e in tr] for tr in traces]
+    mut = json.loads(json.dumps(slim[0]))
+    mut[-1]["mode"] = "COMPACT" if mut[-1]["mode"] == "VERBOSE" else "VERBOSE"
+    with open(os.path.join(d, "traces.json"), "w") as f:
+        json.dump(slim + [mut], f)
+    with open(os.path.join(d, "SessionTrace.cfg"), "w") as f:
+        f.write("SPECIFICATION TSpec\n" + consts.replace("MaxLen = %d" % maxlen, "MaxLen = 100000") + " MutatesCaller = FALSE\nCHECK_DEADLOCK FALSE\n")
+    rt = run_tlc(os.path.join(SPEC, "SessionTrace.tla"), os.path.join(d, "SessionTrace.cfg"), d, workers=8, timeout=1800)
+    if not rt.ok:
+        raise MachineryError("SessionTrace.tla: " + rt.out[-3000:])
+    tv = rt.verdicts()
+    if not any(v not in ("OK", "reported") for v in tv.get(len(slim) + 1, set())):
+        raise MachineryError("binding self-test failed: SessionTrace accepted a corrupted observation (%s)" % tv.get(len(slim) + 1))
+    for k in range(1, len(slim) + 1):
+        vs = tv.get(k, set()) - {"reported"}
+        if not vs:
+            raise MachineryError("no verdict for trace %d" % k)
+        for v in vs:
+            if v == "OK":
+                continue
+            clause, _, pos = v.partition("@")
+            step = traces[k - 1][int(pos) - 1] if pos.isdigit() and int(pos) <= len(traces[k - 1]) else {}
+            prefix = [(e["src"], e["obj"]) for e in traces[k - 1][: int(pos)]] if pos.isdigit() else []
+            dirs = sorted(pool[step.get("src", srcids[0])]["dir"]) if step else []
+            rep.violation(["hist:" + "/".join("%s.%s" % p for p in prefix[-2:]), "directive-source" if dirs else "plain-source"], clause,
+                          {"property": "C11", "history": prefix, "failing_step": step, "verdict": v},
+                          "history %s step %s: %s" % (prefix[-3:], pos, clause))
+    cov = {"states": r.distinct + rt.distinct + ri.distinct, "transitions": r.generated + rt.generated, "traces_validated_against_impl": len(slim),
+           "histories_from_the_model": len(hists), "long_random_histories": len(longs), "compile_calls_replayed": sum(len(t) for t in traces),
+           "fresh_process_results": len(fresh), "worker_processes": nw, "calls_undecided_helper_timeout_under_load": undecided,
+           "design_counterexample_for_mutating_scan": bool(design_cex),
+           "rule": "Session.tla (as required) model-checked over all histories of length <= %d over %d sources x 2 caller-held option objects; every "
+                   "complete history replayed in long-lived worker processes (each worker serves hundreds of calls back to back), with seeded "
+                   "histories of length 20-60; around every call the harness records the option object before/after, utils._output_mode, "
+                   "the constexpr cache, the hash table flag, helper processes started and result == fresh-interpreter result for (source, "
+                   "options as passed); SessionTrace.tla validates every trace step by step" % (maxlen, len(srcids)),
+           "samples": [traces[0], [{k: v for k, v in e.items() if k != "result"} for e in traces[-1][:4]]],
+           "binding_self_test": "corrupted mode observation rejected", "known_findings_hit": sorted(rep.known)}
+    write_evidence("C11", tier, "model_checking", cov, time.time() - t0, violations=len(rep.violations),
+                   assumptions=["process-wide state of compile_code = utils._output_mode, utils._eval_constexpr_cache, utils._all_hashes and the caller's option object (read off the code)",
+                                "results compared as JSON text; fresh results come from new interpreters started by the harness"])
+    return rep.finish()
+
+
+CHECKS["C11"] = check_c11
